@@ -26,7 +26,7 @@ def history(draw):
     ops = []
     for _ in range(draw(st.integers(0, 6))):
         kind = draw(st.sampled_from(['ins-between', 'ins-equal', 'ins-equal', 'ins-above', 'ins-free', 'ins-above',
-                                     'ins-below', 'pop', 'pop', 'pop0', 'reload-dict', 'reload-json']))
+                                     'ins-below', 'ins-below', 'pop-zero', 'pop', 'pop', 'pop0', 'reload-dict', 'reload-json']))
         if kind.startswith('ins'):
             ops.append({'op': kind, 'j': draw(st.integers(0, 11)), 'u': draw(unit),
                         'slope': draw(slope_st)})
@@ -173,6 +173,17 @@ def check_history(case, ctx):
             model.remove(pair)
             n_pop += 1
             ctx.label('pop')
+        elif kind == 'pop-zero':
+            # the breakpoint at zero itself goes (possible once something was inserted below it)
+            ivs_ = [float(v) for v in obj.intervals]
+            if 0.0 not in ivs_ or ivs_.index(0.0) == 0:
+                continue
+            i = ivs_.index(0.0)
+            pair = (ivs_[i], float(obj.slopes[i]))
+            obj.pop(i)
+            model.remove(pair)
+            n_pop += 1
+            ctx.label('pop-zero-breakpoint')
         elif kind == 'pop0':
             before = (list(obj.intervals), list(obj.slopes))
             try:
@@ -231,6 +242,7 @@ def check_history(case, ctx):
                 o3.intervals, o3.slopes, obj.intervals, obj.slopes))
             return
     kinds = {('ins' if o['op'].startswith('ins') else 'reload' if o['op'].startswith('reload') else o['op']) for o in case['ops']}
+    kinds = {'pop' if k_ == 'pop-zero' else k_ for k_ in kinds}
     ctx.nontrivial(len(kinds - {'pop0'}) >= 2)
 
 
